@@ -177,6 +177,126 @@ def extract(repo: Path) -> Tuple[Dict[str, Any], List[str]]:
                 problems.append(f"_types.{cls}.{meth}: marker `{var}` not found")
             else:
                 out[lean + "A"], out[lean + "U"] = m
+    # ---- whole package: census of state that outlives a call (C06) ----
+    census: List[str] = []
+    CONTAINER_CALLS = {"dict", "set", "list", "IdentityDict", "WeakKeyDictionary", "WeakValueDictionary", "WeakSet", "defaultdict",
+                       "OrderedDict", "deque", "Counter", "ChainMap", "frozenset"}
+    CACHE_DECOS = {"lru_cache", "cache", "cached_property"}
+
+    def _callee(v: ast.AST) -> str:
+        f = v.func if isinstance(v, ast.Call) else v
+        return f.attr if isinstance(f, ast.Attribute) else getattr(f, "id", "")
+
+    def _is_container(v: Optional[ast.AST]) -> Optional[str]:
+        if isinstance(v, (ast.Dict, ast.DictComp)):
+            return "dict"
+        if isinstance(v, (ast.Set, ast.SetComp)):
+            return "set"
+        if isinstance(v, (ast.List, ast.ListComp)):
+            return "list"
+        if isinstance(v, ast.Call) and _callee(v) in CONTAINER_CALLS and _callee(v) != "frozenset":
+            return _callee(v)
+        return None
+
+    for path in sorted(ss.glob("*.py")):
+        mod = path.stem
+        try:
+            tree = ast.parse(path.read_text())
+        except Exception as e:
+            problems.append(f"cannot parse {path.name}: {e!r}")
+            continue
+
+        def scan_body(body, prefix):
+            for n in body:
+                tgts, v = [], None
+                if isinstance(n, ast.Assign):
+                    tgts, v = [ast.unparse(x) for x in n.targets], n.value
+                elif isinstance(n, ast.AnnAssign) and n.value is not None:
+                    tgts, v = [ast.unparse(n.target)], n.value
+                kind = _is_container(v)
+                if kind:
+                    for tname in tgts:
+                        if tname not in ("__all__", "_fields_"):
+                            census.append(f"{prefix}{tname}:{kind}")
+                if isinstance(n, ast.ClassDef):
+                    scan_body(n.body, prefix + n.name + ".")
+                if isinstance(n, (ast.If, ast.Try)):
+                    for sub in ([n.body, n.orelse] + ([h.body for h in n.handlers] + [n.finalbody] if isinstance(n, ast.Try) else [])):
+                        scan_body(sub, prefix)
+
+        scan_body(tree.body, mod + ".")  # type: ignore[attr-defined]
+        for n in ast.walk(tree):
+            if isinstance(n, (ast.FunctionDef, ast.AsyncFunctionDef)):
+                for d in n.decorator_list:
+                    if _callee(d) in CACHE_DECOS:
+                        census.append(f"{mod}.{n.name}:{_callee(d)}")
+                    if _callee(d) in ("singledispatch", "code_dispatch") and n in tree.body:  # type: ignore[attr-defined]
+                        census.append(f"{mod}.{n.name}:registry")
+                a = n.args
+                for arg, dflt in list(zip(a.args[len(a.args) - len(a.defaults):], a.defaults)) + \
+                        [(k, d) for k, d in zip(a.kwonlyargs, a.kw_defaults) if d is not None]:
+                    kind = _is_container(dflt)
+                    if kind:
+                        census.append(f"{mod}.{n.name}({arg.arg}):{kind}-default")
+            if isinstance(n, (ast.Global, ast.Nonlocal)) and isinstance(n, ast.Global):
+                for name in n.names:
+                    census.append(f"{mod}.{name}:global")
+            # stores into attributes of functions / modules (`fn.cache = ...`) at any level
+            if isinstance(n, ast.Call) and _callee(n) in ("setdefault",) and isinstance(n.func, ast.Attribute) \
+                    and isinstance(n.func.value, ast.Attribute) and n.func.value.attr == "__dict__":
+                census.append(f"{mod}.__dict__.setdefault")
+    out["stateCensus"] = sorted(set(census))
+
+    # ---- _glue.py: what is done with the throw-away async generator / coroutine used for type discovery ----
+    t = parse("_glue.py")
+    helper_ops: List[str] = []
+    if t is not None:
+        host = None
+        for n in ast.walk(t):
+            if isinstance(n, (ast.FunctionDef, ast.AsyncFunctionDef)) and any(
+                    isinstance(c, ast.AsyncFunctionDef) and c.name == "some_asyncgen" for c in n.body):
+                host = n
+        if host is None:
+            problems.append("_glue: the function defining some_asyncgen() not found")
+        else:
+            created: Dict[str, str] = {}
+
+            def ops_of(stmt: ast.AST, caught: bool):
+                for n in ast.walk(stmt):
+                    if isinstance(n, ast.Assign) and isinstance(n.value, ast.Call) and isinstance(n.value.func, ast.Name) \
+                            and n.value.func.id in ("some_asyncgen", "some_afn") and isinstance(n.targets[0], ast.Name):
+                        created[n.targets[0].id] = n.value.func.id
+                        helper_ops.append(("agen" if n.value.func.id == "some_asyncgen" else "coro") + ".create")
+                calls = [n for n in ast.walk(stmt) if isinstance(n, ast.Call) and isinstance(n.func, ast.Attribute)]
+                # innermost-first so that `agen.aclose().send(None)` gives aclose then send
+                for n in sorted(calls, key=lambda c: (c.lineno, -c.col_offset if False else c.end_col_offset)):
+                    base = n.func.value
+                    if isinstance(base, ast.Name) and base.id in created:
+                        k = "agen" if created[base.id] == "some_asyncgen" else "coro"
+                        helper_ops.append(f"{k}.{n.func.attr}")
+                    elif isinstance(base, ast.Call) and isinstance(base.func, ast.Attribute) and isinstance(base.func.value, ast.Name) \
+                            and base.func.value.id in created:
+                        k = "agen" if created[base.func.value.id] == "some_asyncgen" else "coro"
+                        helper_ops.append(f"{k}.{base.func.attr}().{n.func.attr}" + (":caught" if caught else ":uncaught"))
+
+            for stmt in host.body:
+                if isinstance(stmt, (ast.FunctionDef, ast.AsyncFunctionDef, ast.ClassDef)):
+                    continue
+                if isinstance(stmt, ast.Try):
+                    names = set()
+                    for h in stmt.handlers:
+                        if h.type is None:
+                            names.add("*")
+                        else:
+                            for x in ast.walk(h.type):
+                                if isinstance(x, ast.Name):
+                                    names.add(x.id)
+                    caught = bool(names & {"*", "StopIteration", "BaseException", "Exception"})
+                    for b in stmt.body:
+                        ops_of(b, caught)
+                else:
+                    ops_of(stmt, False)
+    out["helperOps"] = helper_ops
     return out, problems
 
 
@@ -195,6 +315,8 @@ def render(vals: Dict[str, Any]) -> str:
             lines.append(f"def {k} : Nat := {v}")
         elif isinstance(v, str):
             lines.append(f"def {k} : String := {_lean_str(v)}")
+        elif isinstance(v, list):
+            lines.append(f"def {k} : List String := [" + ", ".join(_lean_str(x) for x in v) + "]")
     lines += ["", "end SS.Gen", ""]
     return "\n".join(lines)
 
